@@ -71,6 +71,10 @@ ExpLoc(i) == LET v == Eval(R.st, 8, InitAsg) IN
              ELSE UNASSIGNED
 LocDomain == R.loc_checked /\ HasPulse(P.cpi)
 TestsLocCombine == (R.raised \/ ~LocDomain \/ \A i \in 1..NI : R.loc[i][j] = ExpLoc(i)) \/ Fail("TestsLocCombine")
+\* partially specified patterns (X or - among loads and inputs): definite expectations are exact, the rest stays unknown
+TestsLocPartial == (R.raised \/ R.loc_checked \/ ~HasPulse(P.cpi)
+                    \/ \A i \in 1..NI : LET e == ExpLoc(i) IN IF e \in {UNKNOWN, UNASSIGNED} THEN R.loc[i][j] \in {UNKNOWN, UNASSIGNED}
+                                                                ELSE R.loc[i][j] = e) \/ Fail("TestsLocPartial")
 \* machinery: the interface order the specification derives from the structure is the one the record uses
 IfaceIsSNodes == (j > 1) \/ (NI = Len(SNodes(R.st)) /\ \A i \in 1..NI : R.iface[i] = NameOf(R.st, SNodes(R.st)[i]) /\ TopoOK(R.st))
                  \/ (PrintT(<<"FAIL", "MACHINERY", tid, j, "IfaceIsSNodes">>) /\ FALSE)
